@@ -17,6 +17,9 @@ def run(ctx):
         return
     n = 40 if ctx.tier == 'quick' else 300
     specs = util.corpus(ctx.prop) + gen.gen_many(ctx.seed, n, CFG, 'c17_')
+    # variables that span several steps across the present / future boundary: block orders, contracts on a coarser frequency
+    specs += gen.gen_many(ctx.seed, n // 2, dict(CFG, p_coarse=0.5, coarse_any=False, T=(6, 8), freqs=['h'],
+                                                 kinds={'SimpleContract': 2, 'Contract': 1, 'Transport': 1, 'Storage': 1, 'OrderBook': 4}), 'c17blk_')
     for sp in specs:
         if 'slp' not in sp['opts']:
             rng = random.Random(str(sp['seed']) + '/slp')
